@@ -39,6 +39,12 @@ type OrderCase struct {
 	// activation of the local services takes ActivateUS microseconds
 	Blind      bool `json:"blind,omitempty"`
 	ActivateUS int  `json:"activate_us,omitempty"`
+	// Broken: a subscriber of both signals registered ahead of the observers
+	// whose reading side is shut down (what the directory writes to it fails);
+	// Churners: connections which register for serviceAdded and unregister again,
+	// over and over, while the services come and go
+	Broken   bool `json:"broken,omitempty"`
+	Churners int  `json:"churners,omitempty"`
 }
 
 func genOrder(t *rapid.T) OrderCase {
@@ -51,6 +57,8 @@ func genOrder(t *rapid.T) OrderCase {
 		ThrottleUS: rapid.SampledFrom([]int{5, 20, 50}).Draw(t, "throttle"),
 		Blind:      rapid.Bool().Draw(t, "blind"),
 		ActivateUS: rapid.SampledFrom([]int{0, 0, 200, 1000, 3000}).Draw(t, "activate"),
+		Broken:     rapid.IntRange(0, 2).Draw(t, "broken") == 0,
+		Churners:   rapid.SampledFrom([]int{0, 0, 1, 3}).Draw(t, "churners"),
 	}
 }
 
@@ -74,6 +82,16 @@ func checkOrder(c OrderCase) error {
 		slow.throttle(time.Duration(c.ThrottleUS) * time.Microsecond)
 		defer slow.throttle(0)
 		slowSub = slow
+	}
+	if c.Broken {
+		bo, closeB, err := newObserver(w)
+		if err != nil {
+			return vt.Violationf("C15:setup", "observer: %v", err)
+		}
+		defer closeB()
+		if bo.raw.CloseRead() {
+			vt.Label("subscriber-with-a-broken-connection-ahead-of-the-observers")
+		}
 	}
 	var observers []*observer
 	for i := 0; i < c.Observers; i++ {
@@ -105,6 +123,32 @@ func checkOrder(c OrderCase) error {
 		}()
 	}
 	var sniped, blind, gaveUp int32
+	var churners []*netkit.RawClient
+	for i := 0; i < c.Churners; i++ {
+		raw, err := netkit.Dial(w.env.Addr)
+		if err != nil || !raw.Authenticate("u", "t", bound) {
+			close(stop)
+			wg.Wait()
+			return vt.Violationf("C15:setup", "churner: %v", err)
+		}
+		defer raw.Close()
+		churners = append(churners, raw)
+		wg.Add(1)
+		go func() {
+			defer wg.Done()
+			for {
+				select {
+				case <-stop:
+					return
+				default:
+				}
+				reg := regPayload(1, 106, atomic.AddUint64(&observerIDs, 1))
+				if f, ok := raw.CallWait(1, 1, 0, reg, bound); ok && f.Type == netkit.Reply {
+					raw.CallWait(1, 1, 1, reg, bound)
+				}
+			}
+		}()
+	}
 	var setupErr atomic.Value
 	for i := 0; i < c.Snipers; i++ {
 		raw, err := netkit.Dial(w.env.Addr)
@@ -204,6 +248,26 @@ func checkOrder(c OrderCase) error {
 			}
 		}
 	}
+	// the subscribers which came and went: none of their registrations (an event
+	// frame carries the identifier of the registration's call) was told twice
+	// that the same service had been added
+	for ci, raw := range churners {
+		seen := map[[2]uint32]bool{}
+		for _, f := range raw.Frames() {
+			if f.Type != netkit.Event || f.Service != 1 || f.Action != 106 {
+				continue
+			}
+			v, _, err := ref.Decode(eventType, f.Payload)
+			if err != nil {
+				continue
+			}
+			k := [2]uint32{f.ID, v.(ref.Tuple)[0].(uint32)}
+			if seen[k] {
+				return vt.Violationf("C15:order:duplicate-event", "a subscriber which registers and unregisters over and over (%d of %d) was told twice, through the same registration, that service %d had been added", ci, len(churners), k[1])
+			}
+			seen[k] = true
+		}
+	}
 	// everything has been registered and unregistered: the brake is released
 	// (what is still to be emitted is emitted at full speed) before the harness
 	// starts to wait for the observers' events
@@ -261,7 +325,7 @@ func checkOrder(c OrderCase) error {
 	}
 	nontrivial := atomic.LoadInt32(&sniped) > 0 && created >= 2
 	key, _ := json.Marshal(c)
-	vt.Case(nontrivial, "order"+string(key), "mode=event-order", fmt.Sprintf("observers=%d", c.Observers), fmt.Sprintf("spinners=%d", c.Spinners), fmt.Sprintf("slow-subscriber-registrations=%d", c.SlowRegs))
+	vt.Case(nontrivial, "order"+string(key), "mode=event-order", fmt.Sprintf("observers=%d", c.Observers), fmt.Sprintf("spinners=%d", c.Spinners), fmt.Sprintf("slow-subscriber-registrations=%d", c.SlowRegs), fmt.Sprintf("churning-subscribers=%d", c.Churners))
 	vt.LabelN("foreign-unregistrations", int64(atomic.LoadInt32(&sniped)))
 	if n := atomic.LoadInt32(&gaveUp); n > 0 {
 		vt.LabelN("snipers-which-left-unanswered(not-judged)", int64(n))
